@@ -106,17 +106,20 @@ impl Accum {
         for (k, v) in &stats.events {
             *self.events.entry((*k).to_string()).or_insert(0) += v;
         }
+        let mut new = false;
+        let mut nontrivial = false;
         if let Some(set) = stats.nt.get(prop) {
             if !set.is_empty() {
+                nontrivial = true;
                 self.nt_cases += 1;
-                let new = set.iter().any(|s| !self.nt.contains(s));
+                new = set.iter().any(|s| !self.nt.contains(s));
                 for s in set {
                     self.nt.insert(s.clone());
                 }
-                if (new && self.samples.len() < 6) || (self.samples.len() < 3) {
-                    self.samples.push(sample());
-                }
             }
+        }
+        if self.samples.is_empty() || (nontrivial && self.samples.len() < 3) || (new && self.samples.len() < 6) {
+            self.samples.push(sample());
         }
     }
 
